@@ -42,14 +42,14 @@ class C05(flow.Spec):
         for _ in range(rng.choice([0, 0, 1, 2, 3, 5])):
             size = rng.choice([1, 4096, 4097, 8192, rng.randrange(1, 4 * 4096)])
             k = (size + 4095) >> 12
-            if rng.random() < 0.93:
+            if rng.random() < 0.97:
                 ops.append([8, rng.randrange(1, 1 << 30), size, rng.choice([P | RW, P | RW | pc.NX, P])])
             else:
                 ops.append([16, size])           # reserved but never mapped: setup must fail with ErrInvalidMapping
                 note = 'unmapped-reservation'
             last -= k << 12
             resv_pages += [(last >> 12) + i for i in range(k)]
-        off = rng.choice([KOFF, KOFF, KOFF, 0xffffffff80000000, 0xffff800000100000, 0, 0x100000])
+        off = rng.choice([KOFF, KOFF, KOFF, KOFF, 0xffff800000100000, 0xffffc00000000000, 0, 0x100000] + ([0xffffffff80000000] if rng.random() < 0.1 else []))
         secs = []
         addr = off + rng.choice([0, 0x100000, 0x100000, 0x200000 - 4096, 0x40000000 - 8192, rng.randrange(1 << 12) << 12])
         nsec = rng.randrange(1, 13)
